@@ -117,6 +117,10 @@ type BatchJob struct {
 	Goroutines int   `json:"goroutines"`
 	Seed       int64 `json:"seed"`
 	Repeat     int   `json:"repeat"` // number of concurrent rounds (each with a fresh shared cache)
+	// Warm: before every concurrent round, load (and on the VM compile) the shared
+	// contracts into the fresh cache sequentially. Only used to continue the search
+	// behind known finding FX7 (VM compiles cached programs lazily and unsynchronised).
+	Warm bool `json:"warm,omitempty"`
 }
 
 // BatchResult reports the comparison of the concurrent rounds with the
@@ -164,6 +168,16 @@ func RunBatch(j BatchJob) BatchResult {
 	conc := make([][]StepTrace, rounds)
 	for r := 0; r < rounds; r++ {
 		shared := NewSharedPrograms()
+		if j.Warm {
+			warm := "access(all) fun main() {}"
+			for _, c := range j.Batch.Contracts {
+				warm = fmt.Sprintf("import %s from 0x%x\n", c.Name, c.Signers[0]) + warm
+			}
+			if st := runShared(base, shared, prog.Step{Kind: prog.Script, Source: warm}, eng); st.Class != "ok" {
+				res.SetupFail = "warm-up failed: " + st.ErrMsg
+				return res
+			}
+		}
 		out := make([]StepTrace, n)
 		order := rnd.Perm(n)
 		work := make(chan int, n)
